@@ -1,15 +1,15 @@
 (* Property C13 — Louvain terminates with nested partitions of non-decreasing modularity.
-   This file contains only the pinned statements; proofs live in Proofs/PartitionOk.v and
-   Proofs/LouvainOk.v.  The statements are repeated in coq/pins/C13.v and re-checked on every run.
+   This file contains only the pinned statements; proofs live in Proofs/PartitionOk.v,
+   Proofs/LouvainOk.v, MoveGainOk.v, AggregationOk.v and (round 2) Proofs/Louvain*Ok.v.  The
+   statements are repeated in coq/pins/C13.v and re-checked on every run.
 
-   Route: a VERIFIED CHECKER.  [check_levels] is executable; C13_check_levels_sound proves that a
+   Round 1 route: a VERIFIED CHECKER.  [check_levels] is executable; C13_check_levels_sound proves that a
    positive verdict implies the Prop-level statement (non-empty list of levels, each a partition of
    the node set into non-empty communities, each level a coarsening of the one before).  The check
    evaluates it on the output of the Louvain model (Model/Louvain.v, the transcription of louvain.rs
    after the repairs F16/F17) for every generated case, together with the exact modularity of every
    level via [modularity_abs] (C12_modularity); the property oracle evaluates the same statement on
-   the implementation's output.  Termination of the sweep loop is not proved (the model carries
-   explicit fuel; OutOfFuel / a 2 s watchdog are reported as "does not return").
+   the implementation's output.  (In round 1 termination of the sweep loop was not proved.)
    Round 2 (deepening): the bookkeeping invariants L1-L3 of the state-level model are PROVED
    (second half of this file), and with them, for the model itself and every input:
      - C13_levels_partition_nested: whenever louvain_partitions returns, its levels satisfy
@@ -23,11 +23,12 @@
        with level fuel > N and sweep fuel >= N^N the model never returns OutOfFuel (the executable
        instance runs with 40 / 300, which this bound covers for N <= 4 only; beyond that OutOfFuel
        stays a reported per-case outcome);
-     - C13_first_level_ge_singletons / C13_levels_monotone_partial: modularity never decreases from
-       level to level and the first level is at least as good as the singletons - measured on the
-       FIRST WORKING GRAPH (convert_graph's output: integer names, single edges); what is missing
-       for the input graph itself is the transport of Newman's formula along the renaming and
-       to_single_edges (validated per case: observation 75).
+     - C13_levels_monotone: on every single-edge input graph, Newman's modularity OF THE INPUT
+       GRAPH (its own names and weighted edge list) never decreases from level to level of the
+       returned list, and the first level is at least as good as the all-singletons partition;
+       C13_levels_monotone_partial: the same on the first working graph for every input
+       (multigraphs included) - what is missing for a multigraph input is the transport of
+       Newman's formula through to_single_edges (parallel edges collapsed into their sum).
    Domain of the numeric theorems: resolution >= 0 and, when weighted = true, non-negative real
    weights (with negative weights a non-candidate own community may be worth more than the
    model's implicit 0, and the potential argument fails). *)
@@ -36,7 +37,7 @@ From GV Require Import Base.Outcome Base.AMap Model.GState Model.Query Model.Lou
      Proofs.PartitionOk Proofs.LouvainOk Proofs.MoveGainOk Proofs.AggregationOk.
 From GV Require Import Proofs.WFDefs Proofs.LouvainStructOk Proofs.LouvainNumOk Proofs.LouvainTermOk
      Proofs.LouvainLevelOk Proofs.LouvainGenGraphOk Proofs.LouvainConvertOk Proofs.LouvainAggOk
-     Proofs.LouvainLevelsOk Proofs.LouvainModelOk.
+     Proofs.LouvainLevelsOk Proofs.LouvainModelOk Proofs.LouvainTransportOk.
 Import ListNotations.
 Open Scope Q_scope.
 
@@ -322,10 +323,37 @@ Section C13_entry.
       louvain_communities teqb tltb lf sf g weighted res thr perms <> OutOfFuel.
   Proof. exact (louvain_partitions_never_out_of_fuel teqb tltb teqb_spec tltb_asym tltb_total). Qed.
 
-  (* MONOTONICITY and "first level at least as good as singletons", on the first working graph.
+  (* MONOTONICITY and "first level at least as good as singletons" for a single-edge input graph,
+     measured on the input graph itself: [esT] is its weighted edge list (weight 1 per edge when
+     weighted = false), the levels are the returned ones, in the input's node names. *)
+  Theorem C13_levels_monotone :
+    forall lf sf (g : gstate T A) weighted res thr perms ls esT,
+      WF teqb tltb g -> multi (sp g) = false -> weights_ok g weighted -> 0 <= res ->
+      wedges_of weighted (get_all_edges g) = Some esT ->
+      louvain_partitions teqb tltb lf sf g weighted res thr perms = Ok ls ->
+      let QT := newman teqb (directed (sp g)) esT res in
+      chain (fun a b => QT a <= QT b) ls /\
+      exists first rest, ls = first :: rest /\
+        QT (map (fun x => [x]) (map nname (nodes_vec g))) <= QT first.
+  Proof. exact (louvain_levels_monotone_input teqb tltb teqb_spec tltb_asym tltb_total). Qed.
+
+  (* the renaming convert_graph / convert_back preserves Newman's modularity (single-edge input) *)
+  Theorem C13_convert_back_preserves_Q :
+    forall (g : gstate T A) weighted gu esT level (lvT : list (list T)),
+      WF teqb tltb g -> multi (sp g) = false ->
+      convert_graph teqb tltb g weighted (node_map_of tltb g) = Ok gu ->
+      wedges_of weighted (get_all_edges g) = Some esT ->
+      (forall c i, In c level -> In i c -> (i < length (nodes_vec g))%nat) ->
+      convert_back (node_map_of tltb g) [level] = Ok [lvT] ->
+      forall res, newman teqb (directed (sp g)) esT res lvT
+                  == newman Nat.eqb (directed (sp gu)) (wedges gu) res level.
+  Proof. exact (convert_back_newman teqb tltb teqb_spec tltb_asym tltb_total). Qed.
+
+  (* The same for EVERY input (multigraphs included), on the first working graph.
      PARTIAL: the modularity is that of convert_graph's output [gu] (integer names, parallel edges
-     collapsed, weights 1 when weighted = false); its equality with the modularity of the input
-     graph for the renamed communities is not proved. *)
+     collapsed into their sum, weights 1 when weighted = false); for a multigraph input its
+     equality with the modularity of the input graph (transport through to_single_edges) is not
+     proved. *)
   Theorem C13_levels_monotone_partial :
     forall lf sf (g : gstate T A) weighted res thr perms ls tie,
       WF teqb tltb g -> weights_ok g weighted -> 0 <= res ->
